@@ -108,3 +108,65 @@ func hC08iter(p, T, mode int) {
 func H_C08_iter_q() { c := vCase(); hC08iter(c%2, 6+c/2, 0) }  // p in {0,1}, T = 6..
 func H_C08_iter_s() { c := vCase(); hC08iter(c%2, c/2, 0) }    // short tails T = 0..5
 func H_C08_iter_big() { c := vCase(); hC08iter(c%2, 6+c/2, 1) } // claimed size > 64
+
+// hC08two: a damaged (older) segment followed by an intact newer one: after the
+// accepted prefix of the first, every record of the second is still replayed.
+func hC08two(p, T int) {
+	opts := (&Options{FileSystem: fs.Mem}).copyWithDefaults("c08b")
+	fsys := opts.FileSystem
+	body := vValidRecords(p)
+	tail := vBytes("tail", T)
+	if T >= 6 {
+		kl := uint32(tail[0]) | uint32(tail[1])<<8
+		vl := (uint32(tail[2]) | uint32(tail[3])<<8 | uint32(tail[4])<<16 | uint32(tail[5])<<24) & 0x7fffffff
+		vAssume(vl <= 64)
+		vAssume(kl+vl <= 64)
+	}
+	name1 := segmentName(0, 1)
+	vWriteFile(fsys, name1, refHeader(), body, tail)
+	data := append(append([]byte{}, body...), tail...)
+	k2 := vBytes("k2", 2)
+	v2 := vBytes("v2", 1)
+	name2 := segmentName(1, 2)
+	vWriteFile(fsys, name2, refHeader(), refEncode(k2, v2, false))
+	dl := &datalog{opts: opts}
+	seg1, err := dl.openSegment(name1, 0, 1)
+	vAssert(err == nil, "C08.two.open1")
+	seg2, err2 := dl.openSegment(name2, 1, 2)
+	vAssert(err2 == nil, "C08.two.open2")
+	if err != nil || err2 != nil {
+		return
+	}
+	it := newRecoveryIterator([]*segment{seg1, seg2})
+	off := 0
+	for n := 0; n < 8; n++ {
+		want, ok := refDecodeAt(data, off)
+		if !ok {
+			break
+		}
+		rec, err := it.next()
+		vAssert(err == nil, "C08.two.accepts-valid")
+		if err != nil {
+			return
+		}
+		vAssert(vEqBytes(rec.key, want.key) && rec.segmentID == 0, "C08.two.first-segment-record")
+		off += want.size
+	}
+	rec, err := it.next()
+	vAssert(err == nil, "C08.two.continues-with-next-segment")
+	if err != nil {
+		return
+	}
+	vAssert(rec.segmentID == 1 && int(rec.offset) == headerSize, "C08.two.second.position")
+	vAssert(vEqBytes(rec.key, k2) && vEqBytes(rec.value, v2) && rec.rtype == recordTypePut, "C08.two.second.record")
+	_, err = it.next()
+	vAssert(err == ErrIterationDone, "C08.two.done")
+	vAssert(vFileSize(fsys, name1) == int64(headerSize+off), "C08.two.first-truncated")
+	vAssert(vFileSize(fsys, name2) == int64(headerSize+10+3), "C08.two.second-untouched")
+	if off < len(data) {
+		vCover("C08.two.damaged-then-intact")
+	}
+	vCover("C08.two.done")
+}
+
+func H_C08_two() { c := vCase(); hC08two(c%2, c/2) }
